@@ -226,7 +226,7 @@ func genPackTree(rng *Rng, risky bool) (*TNode, bool, string) {
 		"other": tdir(0o755, map[string]*TNode{".terraformignore": tfile("!a\n*\n", 0o644), "keep": tfile("k", 0o644),
 			"outside": tdir(0o755, map[string]*TNode{"f": tfile("other-outside-f", 0o644)}),
 			"deep":    tdir(0o755, map[string]*TNode{"k": tfile("k", 0o644), "x": tlink("../outside/f"), "y": tlink("k")})}),
-		"out":     tdir(0o755, nil),
+		"out": tdir(0o755, nil),
 	})
 	w.Kids["oalias"] = tlink("outside")
 	if rng.Chance(15) {
